@@ -98,10 +98,10 @@ def _step(draw, kind, base, used=None):
 
 
 @st.composite
-def gen_history(draw):
+def gen_history(draw, max_steps=12):
     kind = draw(st.sampled_from(KINDS))
     base = draw(st.sampled_from(CUR))
-    n = draw(st.integers(2, 12))
+    n = draw(st.integers(2, max_steps))
     used = []
     first = [{"s": "update", "validity": draw(_validity(kind, used)),
               "specs": draw(st.lists(_spec(base), min_size=2, max_size=4))} for _ in range(draw(st.integers(1, 3)))]
@@ -394,5 +394,5 @@ def machine_part(ctx, shard, nshards, n, sd):
 
 def parts(tier):
     big = tier == "thorough"
-    return [Part("hist", "hyp", strategy=gen_history(), n=300000 if big else 16000),
+    return [Part("hist", "hyp", strategy=gen_history(30 if big else 12), n=300000 if big else 16000),
             Part("machine", "custom", custom=machine_part, n=40000 if big else 1600, shards=16)]
